@@ -386,7 +386,7 @@ package rpc
 //@   modifies ghost.nOpen at 0
 //@   ensures result != nil && ghost(nOpen, 0) == old(ghost(nOpen, 0)) + 1
 //@   ensures !cast(ghost(stateOf, result), channelState).recvFailed && !cast(ghost(stateOf, result), channelState).recvResp
-//@   ensures cast(ghost(stateOf, result), channelState).logger == logger
+//@   ensures cast(ghost(stateOf, result), channelState).logger == logger && cast(ghost(stateOf, result), channelState).ch == ch
 
 //@ func (*channel).Free
 //@   trusted
@@ -396,14 +396,29 @@ package rpc
 //@ func (*channel).Method
 //@   trusted
 
-//@ func (*channel).Request
+// Request: verified (was assumed). OK only if the request message was built without error and
+// the mpx channel accepted it; a second Request on the same call is an error and sends nothing.
+// Assumed below it: the generated request writer (buildRequest), requestMethod (method name for logs).
+//@ func (builder).buildRequest
 //@   trusted
+//@   modifies ghost.errMade at 0
+//@   ensures result1 != nil ==> ghost(errMade, 0) == 1
+//@   ensures result1 == nil ==> ghost(errMade, 0) == old(ghost(errMade, 0))
+//@ func requestMethod
+//@   trusted
+
+//@ func (*channel).Request
+//@   safety[C04]
+//@   let s = cast(ghost(stateOf, ch), channelState)
+//@   requires ch != nil && ctx != nil && s.ch != nil
 //@   modifies rpc.channelState.sendReq
 //@   modifies rpc.channelState.method
 //@   modifies ghost.errMade at 0
 //@   modifies ghost.nSend at 0
-//@   ensures result.Code != "ok" ==> ghost(errMade, 0) == 1
-//@   ensures result.Code == "ok" ==> ghost(errMade, 0) == old(ghost(errMade, 0)) && ghost(nSend, 0) == old(ghost(nSend, 0)) + 1
+//@   ensures[C04] result.Code != "ok" && result.Code != "closed" ==> ghost(errMade, 0) == 1
+//@   ensures[C04] result.Code == "ok" ==> ghost(errMade, 0) == old(ghost(errMade, 0)) && ghost(nSend, 0) == old(ghost(nSend, 0)) + 1
+//@   ensures[C04] old(s.sendReq) ==> result.Code != "ok" && ghost(nSend, 0) == old(ghost(nSend, 0))
+//@   ensures[C04] ghost(nSend, 0) != old(ghost(nSend, 0)) ==> s.sendReq
 
 //@ func (*client).channel
 //@   safety[C04]
@@ -413,7 +428,7 @@ package rpc
 //@   modifies ghost.nOpen at 0
 //@   ensures[C04] result1.Code != "ok" ==> result0 == nil && ghost(errMade, 0) == 1 && ghost(nOpen, 0) == old(ghost(nOpen, 0))
 //@   ensures[C04] result1.Code == "ok" ==> result0 != nil && ghost(errMade, 0) == old(ghost(errMade, 0)) && ghost(nOpen, 0) == old(ghost(nOpen, 0)) + 1
-//@   ensures[C04] result1.Code == "ok" ==> !cast(ghost(stateOf, result0), channelState).recvFailed && !cast(ghost(stateOf, result0), channelState).recvResp && cast(ghost(stateOf, result0), channelState).logger == c.logger
+//@   ensures[C04] result1.Code == "ok" ==> !cast(ghost(stateOf, result0), channelState).recvFailed && !cast(ghost(stateOf, result0), channelState).recvResp && cast(ghost(stateOf, result0), channelState).logger == c.logger && cast(ghost(stateOf, result0), channelState).ch != nil
 
 //@ func (*client).Request
 //@   safety[C04]
